@@ -29,6 +29,12 @@ CallRec(call, cx) ==
   [a |-> call.a, kw |-> call.kw, self |-> call.self, e |-> e.k, j |-> e.j,
    \* the call normalised to positions (what the selected overload must receive), its status
    pa |-> Norm(S, call).a, st |-> Norm(S, call).st,
+   \* per position: the parameter type of the converting constructor C++ uses for the selected
+   \* overload ("" where the argument is passed as it is)
+   co |-> IF e.k # "run" THEN <<>> ELSE
+          [i \in 1..Len(Norm(S, call).a) |->
+             IF S[e.j].p[i] \in CoCats /\ InstOf(Norm(S, call).a[i]) = ""
+               THEN CppCtor(CoClass(S[e.j].p[i]), ArgStd(Norm(S, call).a[i])) ELSE ""],
    ct |-> IF HasKw(call) THEN <<>> ELSE [i \in 1..N(call) |-> ArgType(S, Norm(S, call), i)],
    cpp |-> IF HasKw(call) THEN 0 ELSE CppSelect(S, Norm(S, call)),
    dev |-> DevC(S, call, cx),
